@@ -12,6 +12,7 @@ package sftp
 import (
 	"bytes"
 	"encoding/binary"
+	"errors"
 	"fmt"
 	"io"
 	"os"
@@ -24,7 +25,7 @@ import (
 func TestVerifC20(t *testing.T) {
 	vfMain(t, vfCheck{
 		ID: "C20", Level: "fault_enumeration",
-		Rule:        "for each of ~45 Client/File operations (single-request calls, composite calls, multi-chunk transfers under both concurrency settings) and each request the operation issues (first 8), the valid reply is replaced by: a well-framed cut at every byte, every 4-byte window replaced by hostile lengths/counts {0,1,n-1,n+1,2^20,2^31-1,2^32-1} (quick: 3 of the 7 per window), each other reply type, a wrong id, random bodies, an over-long DATA. A class is (operation, request index, reply type, mutation kind).",
+		Rule:        "for each of ~47 Client/File operations (single-request calls, composite calls, multi-chunk transfers under both concurrency settings, transfers in one-byte packets) and each request the operation issues (first 8), the valid reply is replaced by: a well-framed cut at every byte, every 4-byte window replaced by hostile lengths/counts {0,1,n-1,n+1,2^20,2^31-1,2^32-1} (quick: 3 of the 7 per window), each other reply type (ATTRS also with sizes 2^63-1, 2^63, 2^64-2, 2^64-1), a wrong id, random bodies, an over-long DATA. A class is (operation, request index, reply type, mutation kind).",
 		Assumptions: []string{"allocation bound per operation: 64 x bytes received + 3 MiB (client configured with 1 KiB packets and 4 concurrent requests so that legitimate buffers stay small)", "plain build (allocation meter); background panics are attributed through the child journal"},
 		Units:       func(tier vfTier, seed uint64) int { return len(c20Ops()) },
 		Shards: func(tier vfTier) int {
@@ -109,6 +110,9 @@ func c20Ops() []c20Op {
 		{"File.WriteTo-seq", seq, withFile(func(f *File) error { return e(f.WriteTo(io.Discard)) })},
 		{"File.WriteTo-conc", con, withFile(func(f *File) error { return e(f.WriteTo(io.Discard)) })},
 		{"File.WriteTo-conc-fstat", append([]ClientOption{UseFstat(true)}, con...), withFile(func(f *File) error { return e(f.WriteTo(io.Discard)) })},
+		// one-byte packets: the worker count is derived from size/packet-size (+1), which an absurd size can wrap
+		{"File.WriteTo-conc-P1", append([]ClientOption{MaxPacketUnchecked(1)}, con...), withFile(func(f *File) error { return e(f.WriteTo(&c20LimitWriter{left: 40})) })},
+		{"File.WriteTo-conc-P1-fstat", append([]ClientOption{MaxPacketUnchecked(1), UseFstat(true)}, con...), withFile(func(f *File) error { return e(f.WriteTo(&c20LimitWriter{left: 40})) })},
 		{"File.Seek-end", nil, withFile(func(f *File) error { return e(f.Seek(-1, io.SeekEnd)) })},
 		{"File.Stat", nil, withFile(func(f *File) error { return e(f.Stat()) })},
 		{"File.Chmod", nil, withFile(func(f *File) error { return f.Chmod(0o600) })},
@@ -124,6 +128,19 @@ func c20Ops() []c20Op {
 		}},
 	}
 	return ops
+}
+
+// c20LimitWriter accepts a few bytes and then fails, so that a transfer in tiny packets stays short.
+type c20LimitWriter struct{ left int }
+
+func (w *c20LimitWriter) Write(p []byte) (int, error) {
+	if len(p) > w.left {
+		n := w.left
+		w.left = 0
+		return n, errors.New("writer full")
+	}
+	w.left -= len(p)
+	return len(p), nil
 }
 
 // c20Valid computes the valid reply body for a request against a tiny fixed model.
@@ -235,6 +252,8 @@ func c20Mutations(u *vfUnit, valid vfPkt) []c20Mut {
 		{Type: rfName, ID: valid.ID}, {Type: rfName, ID: valid.ID, Names: []vfName{{Name: "n", Long: "l"}, {Name: "m", Long: "k"}}},
 		{Type: rfAttrs, ID: valid.ID, Attrs: vfAttrs{}}, {Type: rfAttrs, ID: valid.ID, Attrs: vfAttrs{Flags: 0xF, Size: 1 << 62, Perm: 0o100644}},
 		{Type: rfAttrs, ID: valid.ID, Attrs: vfAttrs{Flags: 0xF, Size: 5000, Perm: 0o40755}},
+		{Type: rfAttrs, ID: valid.ID, Attrs: vfAttrs{Flags: 0xF, Size: 1<<64 - 1, Perm: 0o100644}}, {Type: rfAttrs, ID: valid.ID, Attrs: vfAttrs{Flags: 0xF, Size: 1<<64 - 2, Perm: 0o100644}},
+		{Type: rfAttrs, ID: valid.ID, Attrs: vfAttrs{Flags: 0xF, Size: 1 << 63, Perm: 0o100644}}, {Type: rfAttrs, ID: valid.ID, Attrs: vfAttrs{Flags: 0x1, Size: 1<<63 - 1}},
 		{Type: rfExtendedReply, ID: valid.ID, ExtData: []byte{1, 2, 3}}, {Type: rfExtendedReply, ID: valid.ID},
 		{Type: rfVersion, Version: 3},
 	}
